@@ -120,7 +120,10 @@ Section Loader.
     In e (step_events rejhdr cfg p r j f) -> e_pair e = p /\ e_strat e = j.
   Proof.
     unfold step_events. destruct (f r) as [recs|reason|kind].
-    - intros H. apply write_target_labels in H. tauto.
+    - destruct (ok_prefix (touched cfg recs)) as [pre [kind|]].
+      + intros H. apply in_app_or in H. destruct H as [H|H]; [apply write_target_labels in H; tauto|].
+        destruct (c_rejects cfg); [|destruct H]. apply write_reject_labels in H. tauto.
+      + intros H. apply write_target_labels in H. tauto.
     - destruct (c_rejects cfg); [|intros []].
       destruct (reject_texts rejhdr r reason); [|intros []].
       intros H. apply write_reject_labels in H. tauto.
@@ -244,11 +247,11 @@ Section Loader.
   Proof.
     unfold target_width, write_target. intros Hm Hw.
     destruct (c_sc cfg).
-    - rewrite (filter_mate_combine (mkArec [] []) (fun k x => mkEv true (a_cell x) k p j (a_text x))
+    - rewrite (filter_mate_combine (mkArec true [] []) (fun k x => mkEv true (a_cell x) k p j (a_text x))
                  (fun e => Bool.eqb (e_target e) t) m) by reflexivity.
       cbn [Nat.leb Nat.add andb]. assert (H : (m <? Nat.min 2 (length recs))%nat = true) by (apply Nat.ltb_lt; lia).
       rewrite H. cbn [andb e_target]. destruct t; reflexivity.
-    - rewrite (filter_mate_combine (mkArec [] []) (fun k x => mkEv true [] k p j (a_text x))
+    - rewrite (filter_mate_combine (mkArec true [] []) (fun k x => mkEv true [] k p j (a_text x))
                  (fun e => Bool.eqb (e_target e) t) m) by reflexivity.
       cbn [Nat.leb Nat.add andb]. assert (H : (m <? Nat.min (c_nh cfg) (length recs))%nat = true) by (apply Nat.ltb_lt; lia).
       rewrite H. cbn [andb e_target]. destruct t; reflexivity.
@@ -286,18 +289,25 @@ Section Loader.
      covers the mate files of the reject handle *)
   Definition step_ok (r : pair) (f : strategy) : Prop :=
     match f r with
-    | Accept recs => (target_width <= length recs)%nat
+    | Accept recs => (target_width <= length recs)%nat /\ forallb a_ok (touched cfg recs) = true
     | _ => (c_nh cfg <= length r)%nat
     end.
+
+  Lemma ok_prefix_all : forall l, forallb a_ok l = true -> ok_prefix l = (l, None).
+  Proof.
+    induction l as [|x l IH]; intros H; [reflexivity|].
+    cbn [forallb] in H. apply andb_prop in H. destruct H as [Hx Hl].
+    cbn [ok_prefix]. rewrite Hx, (IH Hl). reflexivity.
+  Qed.
 
   Lemma step_count (t : bool) p r j f m : step_ok r f -> step_crash rejhdr cfg r f = false ->
     (m < (if t then target_width else c_nh cfg))%nat ->
     length (filter (fun e => Bool.eqb (e_target e) t && Nat.eqb (e_mate e) m) (step_events rejhdr cfg p r j f)) =
-    if Bool.eqb t (is_accept (f r)) && (t || c_rejects cfg) then 1%nat else 0%nat.
+    if Bool.eqb t (is_accept cfg (f r)) && (t || c_rejects cfg) then 1%nat else 0%nat.
   Proof.
     unfold step_ok, step_crash, step_events. intros Hok Hcr Hm.
     destruct (f r) as [recs|reason|kind]; cbn [is_accept].
-    - destruct t.
+    - destruct Hok as [Hok Hall]. rewrite (ok_prefix_all _ Hall). cbn [snd]. destruct t.
       + rewrite write_target_count by assumption. reflexivity.
       + rewrite filter_nil_forall; [reflexivity|].
         intros e He. apply write_target_labels in He. destruct He as (_ & _ & ->). reflexivity.
@@ -341,7 +351,7 @@ Section Loader.
     step_ok (nth p pairs []) (nth j strats dflt) ->
     (m < (if t then target_width else c_nh cfg))%nat ->
     count_at (res_trace (loader strats rejhdr cfg pairs)) t p j m =
-    if Bool.eqb t (is_accept (nth j strats dflt (nth p pairs []))) && (t || c_rejects cfg) then 1%nat else 0%nat.
+    if Bool.eqb t (is_accept cfg (nth j strats dflt (nth p pairs []))) && (t || c_rejects cfg) then 1%nat else 0%nat.
   Proof.
     intros Hc Hp Hj Hok Hm. unfold count_at, at_b.
     rewrite <- filter_filter, (partition_events pairs p j Hc).
@@ -406,7 +416,7 @@ Section Loader.
     (p < length (consumed cfg pairs))%nat -> (j < length strats)%nat ->
     let evs := filter (lab_eqb p j) (res_trace (loader strats rejhdr cfg pairs)) in
     match nth j strats dflt (nth p pairs []) with
-    | Accept recs => evs = write_target cfg p j recs
+    | Accept recs => forallb a_ok (touched cfg recs) = true -> evs = write_target cfg p j recs
     | Reject why | Raise why =>
         if c_rejects cfg
         then exists ts, evs = write_reject cfg p j ts /\ Forall2 (reject_ok why) (nth p pairs []) ts
@@ -419,7 +429,7 @@ Section Loader.
     specialize (Hn Hex Hp Hj).
     apply Nat.ltb_lt in Hp. apply Nat.ltb_lt in Hj. rewrite Hp, Hj. cbn [andb].
     unfold step_events, step_crash in *.
-    destruct (nth j strats dflt (nth p pairs [])) as [recs|why|why]; [reflexivity| |].
+    destruct (nth j strats dflt (nth p pairs [])) as [recs|why|why]; [intros Hall; now rewrite (ok_prefix_all _ Hall)| |].
     - destruct (c_rejects cfg); [|reflexivity]. cbn [andb] in Hn.
       destruct (reject_texts rejhdr (nth p pairs []) why) as [ts|] eqn:Hts; [|discriminate].
       exists ts. split; [reflexivity|]. now apply reject_texts_ok.
